@@ -407,10 +407,12 @@ def check_forwarding(ctx, F):
             if init is None:
                 continue
             for node in ast.walk(init.node):
-                if isinstance(node, ast.Assign) and isinstance(node.targets[0], ast.Attribute) and \
-                        ast.unparse(node.targets[0].value) == "self" and isinstance(node.value, ast.Name) and \
+                tgt = node.targets[0] if isinstance(node, ast.Assign) else (
+                    node.target if isinstance(node, ast.AnnAssign) else None)
+                if tgt is not None and isinstance(tgt, ast.Attribute) and \
+                        ast.unparse(tgt.value) == "self" and isinstance(node.value, ast.Name) and \
                         node.value.id in init.params:
-                    stored.add(node.targets[0].attr)
+                    stored.add(tgt.attr)
         for fld in sorted(stored):
             lv, sv = limp.fields.get(fld), simp.fields.get(fld)
             n += 1
